@@ -490,3 +490,350 @@ for _ok in ('number', 'list'):
         def u(U):
             _sum_unit(U, ok)
     _mk_su()
+
+
+# ----------------------------------------------------------------------------------------------
+# func.func_get: the interpolant at a batch of points (or at one point)
+#
+# With the effective box [lo_k, hi_k] (a / b as given - number or per-mode list -, -1 / +1 where None), for every sample s
+#     result[s] = z                                   if skipping is on and the point is outside the box (some k: lo_k - X[s,k] > 1e-99 or
+#                                                     X[s,k] - hi_k > 1e-99)
+#     result[s] = [ prod_k sum_{j<n_k} T_j(x_sk) A[k][:, j, :] ]_{0,0},   x_sk = clip((X[s,k] - (hi_k+lo_k)/2) * 2/(hi_k-lo_k), -1, 1)   otherwise,
+# the product being the chain  wchain(A, P_s, d-1)  of weighted mode sums (theory groups 'wsum' / 'wchain' of mx_act) with the weights
+# P_s[k][j] = T_j(x_sk) for j < n_k (poi_scale and func_basis through their call-site contracts, units grid.poi_scale.cheb / func.func_basis).
+# Skipping is on iff skip_out is True, or skip_out is None and both a and b are given.  One 1-D point gives the number result[0].
+# Precondition: wf(A), m >= 1 points with d coordinates, lo_k < hi_k.  L-SUMPROD (cited) turns the chain into the sum over all multi-indices.
+# Not covered: custom `funcs` (a list or one callable), X given as a list, the dtype conversion of X, rounding; kind is unused by the code.
+
+from ttvc import mx_act as XA
+AXG = T.axioms('shape', 'wsum', 'wchain', 'mrow', 'entsub', 'sub', 'cheb')
+EPS = Z(1.E-99)
+
+
+def call_poi_scale_vec(ex, st, args, kwargs, node):
+    """poi_scale(x, a, b, 'cheb') for a 1-D float array x and numbers a < b: unit grid.poi_scale.cheb (pointwise tier) proves that every
+    element of the result is the clipped affine image of the corresponding element of x (= chebscale, theory group 'chebscale'); same shape."""
+    xv = st.deref(args[0])
+    kind = args[3].concrete() if len(args) > 3 and isinstance(args[3], VStr) else None
+    if kwargs or len(args) != 4 or kind != 'cheb' or not X.is_vec(xv, 'rvec'):
+        raise M.Unsupported("poi_scale: only the call (1-D float array, a, b, 'cheb') is under this call-site contract")
+    a, b = M.to_real(ex.need_num(st, args[1], node)), M.to_real(ex.need_num(st, args[2], node))
+    ex.oblige(st, 'call-pre', 'poi_scale: a < b', a < b, node)
+    arr = ex.fresh('scaled', RA)
+    st.assume(z3.ForAll([j_], arr[j_] == X.chebscale(xv.t[j_], a, b), patterns=[arr[j_]]))
+    return X.rvec(xv.shape[0], arr)
+
+
+GET_CASES = {
+    # name: (a/b kind, skip_out argument, one point only)
+    'default_box': ('none', NONE, False),
+    'numbers': ('number', NONE, False),
+    'lists.skip_out_False': ('list', False, False),
+    'default_box.skip_out_True': ('none', True, False),
+    'upper_bound_only': ('b_only', NONE, False),
+    'one_point': ('number', NONE, True),
+}
+
+
+def _get_unit(U, case):
+    okind, skip_arg, single = GET_CASES[case]
+    fn = U.func('func', 'func_get')
+    st = U.state()
+    Y, A, d = S.tt_param(st, 'A')
+    m = z3.IntVal(1) if single else z3.Int('m')
+    Xt = z3.Const('X', X.WL)
+    zf = z3.Real('z')
+    a0, b0 = z3.Reals('a0 b0')
+    al, bl = z3.Const('a_list', RA), z3.Const('b_list', RA)
+    if okind == 'none':
+        a_in, b_in, lo, hi = NONE, NONE, (lambda k: z3.RealVal(-1)), (lambda k: z3.RealVal(1))
+    elif okind == 'number':
+        a_in, b_in, lo, hi = a0, b0, (lambda k: a0), (lambda k: b0)
+    elif okind == 'b_only':
+        a_in, b_in, lo, hi = NONE, b0, (lambda k: z3.RealVal(-1)), (lambda k: b0)
+    else:
+        a_in, b_in = st.alloc(VSeq(al, d, lambda x: x, tag='real')), st.alloc(VSeq(bl, d, lambda x: x, tag='real'))
+        lo, hi = (lambda k: al[k]), (lambda k: bl[k])
+    skipping = (skip_arg is True) or (skip_arg is NONE and okind in ('number', 'list'))
+    Xv = X.rvec(d, Xt[0]) if single else X.pts(m, d, Xt)
+    OUT = z3.Function('outside', z3.IntSort(), z3.BoolSort())
+    wk = z3.Function('outside!witness', z3.IntSort(), z3.IntSort())
+    viol = lambda s, k: z3.Or(lo(k) - Xt[s][k] > EPS, Xt[s][k] - hi(k) > EPS)
+    out_def = [z3.ForAll([i_, k_], z3.Implies(z3.And(0 <= k_, k_ < d, viol(i_, k_)), OUT(i_)), patterns=[z3.MultiPattern(OUT(i_), Xt[i_][k_])]),
+               z3.ForAll([i_], z3.Implies(OUT(i_), z3.And(0 <= wk(i_), wk(i_) < d, viol(i_, wk(i_)))), patterns=[OUT(i_)])]
+    box = a0 < b0 if okind == 'number' else (z3.RealVal(-1) < b0 if okind == 'b_only' else
+                                             z3.ForAll([k_], z3.Implies(z3.And(0 <= k_, k_ < d), al[k_] < bl[k_]), patterns=[al[k_], bl[k_]]))
+    pre = [T.wf(A, d), m >= 1] + ([box] if okind != 'none' else []) + out_def
+
+    def tarr(s):
+        Ts = s.deref(s.vars['T']) if 'T' in s.vars else None
+        if not (isinstance(Ts, VSeq) and Ts.tag == 'mats'):
+            raise M.ContractMismatch('func_get(): T is not the list of basis matrices')
+        return Ts.arr
+
+    VAL = lambda TA, s: T.ent(XA.wchain(A, X.bsel(TA, s), d - 1), 0, 0)
+    spec = lambda TA, s: z3.If(OUT(s), zf, VAL(TA, s)) if skipping else VAL(TA, s)
+
+    def inv_outer(ex, s, j):
+        y = s.vars.get('y')
+        if not X.is_vec(y, 'rvec'):
+            raise M.ContractMismatch('func_get(): y is not the vector of results')
+        TA = tarr(s)
+        return [('one-result-per-point', Z(y.shape[0]) == m),
+                ('finished-points-hold-the-fill-value-resp-the-chained-value',
+                 z3.ForAll([i_], z3.Implies(z3.And(0 <= i_, i_ < j), y.t[i_] == spec(TA, i_)), patterns=[y.t[i_]])),
+                ('remaining-points-still-hold-the-fill-value', z3.ForAll([i_], z3.Implies(z3.And(j <= i_, i_ < m), y.t[i_] == zf), patterns=[y.t[i_]])),
+                ('argument-untouched', z3.BoolVal(s.heap[Y.oid].arr is A))]
+
+    def inv_inner(ex, s, j):
+        Q, i = s.vars.get('Q'), s.vars.get('i')
+        if not (isinstance(Q, VArr) and Q.ndim == 2 and Q.tag == 'mat' and Q.t is not None and M.is_intsort(i)):
+            raise M.ContractMismatch('func_get(): Q is not a matrix with a denotation inside the chain loop')
+        return [('partial-product-is-the-chain-of-weighted-mode-sums-of-this-point', Q.t == XA.wchain(A, X.bsel(tarr(s), Z(i)), j)),
+                ('partial-product-is-a-row', z3.And(T.rows(Q.t) == 1, T.cols(Q.t) == T.d2(A[j])))]
+
+    ex = U.executor(fn, loops={0: {'inv': inv_outer}, 1: {'inv': inv_inner}}, axioms=AXG,
+                    callees={'grid.grid_prep_opts': call_grid_prep_opts, 'grid.poi_scale': call_poi_scale_vec, 'func.func_basis': call_func_basis})
+    ex.mode = 'ematch'
+    ex.functt = True
+    ex.asserts = True
+    st.vars.update(X=Xv, A=Y, a=a_in, b=b_in, z=zf, funcs=NONE, kind=VStr('cheb'), skip_out=skip_arg)
+    res = U.run(ex, st, pre=pre)
+    U.assumed += ['grid.grid_prep_opts (units grid.grid_prep_opts.values.*)', 'grid.poi_scale (unit grid.poi_scale.cheb)',
+                  'func.func_basis (unit func.func_basis)', 'props.shape (unit props.shape)']
+    U.cover('precondition-satisfiable', U.pre, axioms=AXG)
+    s0, k0, j0 = z3.Ints('s0 k0 j0')
+    if single:
+        s0 = z3.IntVal(0)
+    for p, o in res:
+        if o.kind != 'return':
+            U.post('no-exception', p, False, axioms=AXG, mode='ematch')
+            continue
+        TA = tarr(p)
+        hyp = list(p.pc)
+        U.post('argument-untouched', p, z3.BoolVal(p.heap[Y.oid].arr is A))
+        if single:
+            U.post('one-point-gives-a-number', p, z3.BoolVal(M.is_num(o.value)))
+            if not M.is_num(o.value):
+                continue
+            got, dom = (lambda s: M.to_real(o.value)), []
+        else:
+            R = p.deref(o.value)
+            ok = X.is_vec(R, 'rvec')
+            U.post('a-batch-gives-a-vector', p, z3.BoolVal(ok))
+            if not ok:
+                continue
+            U.post('one-value-per-point', hyp, Z(R.shape[0]) == m, axioms=AXG, mode='ematch')
+            got, dom = (lambda s: R.t[s]), [0 <= s0, s0 < m]
+        if skipping:
+            U.post('points-outside-the-box-receive-the-fill-value', hyp + dom + [0 <= k0, k0 < d, viol(s0, k0)], got(s0) == zf, axioms=AXG, mode='ematch')
+            U.post('points-inside-the-box-receive-the-chained-value', hyp + dom + [z3.ForAll([k_], z3.Implies(z3.And(0 <= k_, k_ < d), z3.Not(viol(s0, k_))),
+                                                                                        patterns=[Xt[s0][k_]])],
+                   got(s0) == VAL(TA, s0), axioms=AXG, mode='ematch')
+        else:
+            U.post('every-point-receives-the-chained-value (no skipping)', hyp + dom, got(s0) == VAL(TA, s0), axioms=AXG, mode='ematch')
+        xs = X.chebscale(Xt[s0][k0], lo(k0), hi(k0))
+        U.post('weights-of-point-s-in-mode-k-are-T_j-at-the-scaled-coordinate-for-all-j<n_k', hyp + dom + [0 <= k0, k0 < d, 0 <= j0, j0 < T.d1(A[k0])],
+               X.bsel(TA, s0)[k0][j0] == X.cheb(j0, xs), axioms=AXG, mode='ematch')
+        xr = z3.Real('x')
+        U.post('the-scaled-coordinate-is-the-clipped-affine-image-of-the-box-onto-[-1,1]', [lo(k0) < hi(k0)],
+               X.chebscale(xr, lo(k0), hi(k0)) == G.spec_scale(xr, lo(k0), hi(k0), 'cheb'), axioms=T.axioms('chebscale'))
+        U.canary('canary-every-point-receives-the-fill-value', hyp + dom, got(s0) == zf, axioms=AXG)
+        U.canary('canary-weights-are-ones', hyp + dom + [0 <= k0, k0 < d, 0 <= j0, j0 < T.d1(A[k0])], X.bsel(TA, s0)[k0][j0] == 1, axioms=AXG)
+    U.lemmas.append('L-SUMPROD: the end of the chain of weighted mode sums = sum over all multi-indices of the weighted entries (cited)')
+
+
+for _gc in GET_CASES:
+    def _mk_get(gc=_gc):
+        @unit('func.func_get.' + gc, props=('C12',))
+        def u(U):
+            _get_unit(U, gc)
+    _mk_get()
+
+
+# ----------------------------------------------------------------------------------------------
+# func.func_diff_matrix (kind='cheb'), SHAPE / CONTROL level for m = 1, 2, 3 derivative orders
+#
+# Covered: for a < b and n >= 2 nodes the function returns ONE n x n matrix when m = 1 and a LIST of m matrices, each n x n, otherwise;
+# the i-th returned matrix (i = 0, .., m-1) is <an n x n array> * (2 / (b - a)) ** (i + 1): the scaling of the i+1-st derivative to the
+# box is the (i+1)-st power of 2/(b-a) (powf: the symbolic power, identity of the term only); no operation can fail on shapes (all
+# elementwise operands n x n, the diagonal / row-sum vectors of length n); an unknown kind raises ValueError.
+# NOT covered (left to the bounded suite C12 and the cited lemma L-DIFF): the ENTRIES of the matrices (the recursion
+# D <- (i+1) Z (C diag(D) - D) with the negative-row-sum diagonal), kind='sin', symbolic m.
+
+def _diff_unit(U, m):
+    fn = U.func('func', 'func_diff_matrix')
+    ex = U.executor(fn)
+    ex.functt = True
+    ex.functt_shapes = True
+    st = U.state()
+    a, b = z3.Reals('a b')
+    n = z3.Int('n')
+    st.vars.update(a=a, b=b, n=n, m=m, kind=VStr('cheb'))
+    res = U.run(ex, st, pre=[a < b, n >= 2])
+    U.cover('precondition-satisfiable', U.pre)
+    base = 2 / (b - a)
+    for p, o in res:
+        if o.kind != 'return':
+            U.post('no-exception', p, False)
+            continue
+        R = p.deref(o.value)
+        if m == 1:
+            U.post('first-order-only: ONE matrix is returned, not a list', p, z3.BoolVal(isinstance(R, VArr) and R.ndim == 2))
+            mats = [R] if isinstance(R, VArr) else []
+        else:
+            ok = isinstance(R, VList) and len(R.items) == m and all(isinstance(p.deref(x), VArr) and p.deref(x).ndim == 2 for x in R.items)
+            U.post(f'a-list-of-{m}-matrices-is-returned (orders 1..{m})', p, z3.BoolVal(ok))
+            mats = [p.deref(x) for x in R.items] if ok else []
+        for i, Mx in enumerate(mats):
+            if Mx.ndim != 2:
+                continue
+            U.post(f'matrix-of-order-{i + 1}-is-n-x-n', p, z3.And(Z(Mx.shape[0]) == n, Z(Mx.shape[1]) == n))
+            sc = getattr(Mx, 'scaled_by', None)
+            U.post(f'matrix-of-order-{i + 1}-is-an-array-times-a-number', p, z3.BoolVal(sc is not None))
+            if sc is not None:
+                from ttvc import mx_misc as XM
+                # the engine evaluates x ** 2 to the product x * x and every other power to the symbolic power powf(x, p)
+                want = base * base if i + 1 == 2 else XM.powf(base, z3.RealVal(i + 1))
+                U.post(f'matrix-of-order-{i + 1}-is-scaled-by-(2/(b-a))^{i + 1}', list(p.pc), M.to_real(sc[1]) == want, qf=True)
+                U.canary(f'canary-order-{i + 1}-is-not-scaled', list(p.pc), M.to_real(sc[1]) == 1, qf=True)
+        srcs = [getattr(Mx, 'scaled_by', (None,))[0] for Mx in mats]
+        U.post('every-order-scales-its-own-unscaled-matrix (the recursion continues with the unscaled one)', p,
+               z3.BoolVal(len(set(id(s) for s in srcs)) == len(srcs) and all(s is not None for s in srcs)))
+
+
+for _m in (1, 2, 3):
+    def _mk_df(m=_m):
+        @unit(f'func.func_diff_matrix.shapes.m{m}', props=('C12',))
+        def u(U):
+            _diff_unit(U, m)
+    _mk_df()
+
+
+@unit('func.func_diff_matrix.invalid_kind', props=('C12',))
+def u_diff_kind(U):
+    fn = U.func('func', 'func_diff_matrix')
+    ex = U.executor(fn)
+    ex.functt = True
+    ex.functt_shapes = True
+    st = U.state()
+    st.vars.update(a=z3.Real('a'), b=z3.Real('b'), n=z3.Int('n'), m=1, kind=VStr('chebyshev'))
+    res = U.run(ex, st, pre=[z3.Int('n') >= 2])
+    for p, o in res:
+        U.post('an-unknown-kind-raises-ValueError', p, z3.BoolVal(o.kind == 'raise' and o.exc == 'ValueError'))
+    U.post('exactly-one-path', [], z3.BoolVal(len(res) == 1))
+
+
+@unit('func.func_diff_matrix_apply', props=('C12',))
+def u_diff_apply(U):
+    """func_diff_matrix_apply is a draft: for kind='cheb' it raises NotImplementedError, for an unknown kind ValueError (nothing is computed)."""
+    fn = U.func('func', 'func_diff_matrix_apply')
+    for kind, exc in (('cheb', 'NotImplementedError'), ('other', 'ValueError')):
+        ex = U.executor(fn)
+        st = U.state()
+        Y, A, d = S.tt_param(st, 'A')
+        D, _ = S.mat_param('D')
+        st.vars.update(A=Y, D=D, kind=VStr(kind))
+        res = U.run(ex, st, pre=[T.wf(A, d)])
+        for p, o in res:
+            U.post(f'kind-{kind}-raises-{exc}', p, z3.BoolVal(o.kind == 'raise' and o.exc == exc))
+        U.post(f'kind-{kind}-one-path', [], z3.BoolVal(len(res) == 1))
+
+
+# ----------------------------------------------------------------------------------------------
+# func.func_int_general: least-squares coefficients in a user basis, CONTROL / SHAPE level
+#
+# For every core k the result core is   mfold( lsqsol( H_k, munf(Y[k]) ), r_k, r_{k+1} )   with
+#     H_k = basis_func(nodes_k).T,     nodes_k = X  when X is 1-D (shared by all cores),   nodes_k = X[k]  when X is 2-D (one row per core),
+# munf(G) = the n x (r1 r2) mode unfolding np.transpose(G, [1, 0, 2]).reshape(n, -1), mfold its inverse, lsqsol(H, M) = scipy.linalg.lstsq(H, M)[0]:
+# every core is fitted against the basis matrix of ITS OWN nodes (a "reuse the first core's matrix" slip changes H_k for k >= 1 in the
+# 2-D case).  basis_func is a pure callback (A-CB) denoted by the spec function BF(nodes); its documented contract (n points -> n x m array)
+# with m = n is the precondition, as is n_k = number of nodes for every core (otherwise lstsq / reshape raise).  Also proved: result shapes
+# (r_k, n_k, r_{k+1}) = shape of Y (well-formed); scipy.linalg.lstsq is called with parameter names it has, with overwrite_a = overwrite_b =
+# False (the operands may be views of the caller's cores: C09) and cond = the caller's rcond; the argument list is untouched.
+# NOT covered: the VALUE of the least-squares solution (exact reproduction of functions in the span of the basis: bounded suite C12).
+
+AXL = T.axioms('shape', 'mulI', 'lsqsol')
+BF = z3.Function('basis_func', RA, z3.IntSort(), T.Mat)         # the matrix the (pure) callback returns for the nodes x[0..L-1]
+
+
+def _int_general_unit(U, xdim):
+    fn = U.func('func', 'func_int_general')
+    st = U.state()
+    Y, Ya, d = S.tt_param(st, 'Y')
+    L = z3.Int('L')
+    Xt = z3.Const('X', X.WL)
+    x1 = z3.Const('x', RA)
+    Xv = X.rvec(L, x1) if xdim == 1 else X.pts(d, L, Xt)
+    nodes = (lambda k: x1) if xdim == 1 else (lambda k: Xt[k])
+    rc = z3.Real('rcond')
+
+    def basis_func(ex, s, args, kwargs, node):
+        xv = s.deref(args[0]) if len(args) == 1 else None
+        if kwargs or not X.is_vec(xv, 'rvec'):
+            raise M.ContractMismatch('func_int_general(): basis_func is not called with one 1-D array of nodes')
+        t = BF(xv.t, Z(xv.shape[0]))
+        s.assume(T.rows(t) == Z(xv.shape[0]), T.cols(t) == Z(xv.shape[0]))          # documented contract of the callback, square case
+        s.ghost['bf_calls'] = s.ghost.get('bf_calls', []) + [xv]
+        return M.mk_mat(t)
+
+    def H_of(k):
+        return T.tr(BF(nodes(k), L))
+
+    def core_of(k):
+        return X.mfold(X.lsqsol(H_of(k), X.munf(Ya[k])), T.d0(Ya[k]), T.d2(Ya[k]))
+
+    def inv(ex, s, j):
+        As = s.deref(s.vars['A'])
+        if not (isinstance(As, VSeq) and As.tag == 'core'):
+            raise M.ContractMismatch('func_int_general(): A is not the list of result cores')
+        calls = s.ghost.get('lstsq_calls', [])
+        return [('one-core-per-finished-mode', As.n == j),
+                ('finished-cores-are-the-folded-least-squares-solutions-against-the-basis-matrix-of-their-OWN-nodes',
+                 z3.ForAll([t_], z3.Implies(z3.And(0 <= t_, t_ < j), As.arr[t_] == core_of(t_)), patterns=[As.arr[t_]])),
+                ('lstsq-is-called-without-overwriting-and-with-the-caller-rcond',
+                 z3.And([z3.And(z3.BoolVal(c['overwrite_a'] is False and c['overwrite_b'] is False), M.to_real(c['cond']) == rc) if M.is_num(c['cond'])
+                         else z3.BoolVal(False) for c in calls] + [z3.BoolVal(True)])),
+                ('argument-untouched', z3.BoolVal(s.heap[Y.oid].arr is Ya))]
+
+    ex = U.executor(fn, loops={0: {'inv': inv}}, axioms=AXL, type_hints={'A': 'tt'})
+    ex.mode = 'ematch'
+    ex.functt = True
+    ex.functt_lsq = True
+    st.vars.update(Y=Y, X=Xv, basis_func=VFunc('basis_func', basis_func), rcond=rc)
+    sizes = z3.ForAll([t_], z3.Implies(z3.And(0 <= t_, t_ < d), T.d1(Ya[t_]) == L), patterns=[Ya[t_]])
+    res = U.run(ex, st, pre=[T.wf(Ya, d), L >= 1, sizes])
+    U.cover('precondition-satisfiable', U.pre, axioms=AXL)
+    t0 = z3.Int('t0')
+    for p, o in res:
+        if o.kind != 'return':
+            U.post('no-exception', p, False, axioms=AXL, mode='ematch')
+            continue
+        As = p.deref(o.value)
+        ok = isinstance(o.value, VRef) and isinstance(As, VSeq) and As.tag == 'core'
+        U.post('returns-a-fresh-list-of-cores-and-leaves-the-argument-untouched', p, z3.BoolVal(ok and o.value.oid != Y.oid and p.heap[Y.oid].arr is Ya))
+        if not ok:
+            continue
+        Rr = As.arr
+        hyp, dom = list(p.pc), [0 <= t0, t0 < d]
+        U.post('same-number-of-cores', hyp, As.n == d, axioms=AXL, mode='ematch')
+        U.post('core-k-is-the-folded-least-squares-solution-against-the-basis-matrix-of-the-nodes-of-core-k', hyp + dom, Rr[t0] == core_of(t0),
+               axioms=AXL, mode='ematch')
+        U.post('same-shape-as-Y', hyp + dom, z3.And(T.d0(Rr[t0]) == T.d0(Ya[t0]), T.d1(Rr[t0]) == T.d1(Ya[t0]), T.d2(Rr[t0]) == T.d2(Ya[t0])),
+               axioms=AXL, mode='ematch')
+        U.post('well-formed', hyp, T.wf(Rr, d), axioms=AXL, mode='ematch')
+        if xdim == 1:
+            U.post('shared-nodes: the-basis-matrix-is-computed-once', p, z3.BoolVal(len(p.ghost.get('bf_calls', [])) == 1))
+        U.canary('canary-every-core-uses-the-basis-matrix-of-core-0', hyp + dom,
+                 Rr[t0] == X.mfold(X.lsqsol(T.tr(BF(nodes(z3.IntVal(0)), L)), X.munf(Ya[t0])), T.d0(Ya[t0]), T.d2(Ya[t0])), axioms=AXL) if xdim == 2 else \
+            U.canary('canary-cores-are-copied', hyp + dom, Rr[t0] == Ya[t0], axioms=AXL)
+
+
+@unit('func.func_int_general.shared_nodes', props=('C12', 'C09'))
+def u_int_general_1d(U):
+    _int_general_unit(U, 1)
+
+
+@unit('func.func_int_general.nodes_per_core', props=('C12', 'C09'))
+def u_int_general_2d(U):
+    _int_general_unit(U, 2)
